@@ -164,8 +164,9 @@ func (ctx *parseContext) expandSingleValueMacro(arg string) (string, error) {
 		}
 
 		var value string
-		if ctx.macros[macroName] != nil {
-			// Macros have at least one argument.
+		if len(ctx.macros[macroName]) != 0 {
+			// A macro can have no values if its declaration consisted only
+			// of references to undefined macros.
 			value = ctx.macros[macroName][0]
 		}
 
